@@ -1,6 +1,7 @@
 import Verif.Concrete.Slot
 import Verif.Concrete.Ttl
 import Verif.Concrete.Node
+import Verif.Concrete.UtMap
 import Verif.Proto
 /-!
 # Structural tier (C08): replay the implementation's events on the L2 models, compare the private structure
@@ -15,6 +16,7 @@ inductive L2S
   | utlru (s : TState)
   | fifo (s : FState)
   | cnt (s : CState)
+  | ut (s : UState)
 
 def L2S.init (c : Cfg) : Option L2S :=
   match c.kind with
@@ -26,7 +28,8 @@ def L2S.init (c : Cfg) : Option L2S :=
   | .fifo => some (.fifo (Fifo.init c.cap))
   | .lfu => some (.cnt (Cnt.init false c.cap 0 1 2))
   | .lfuda => some (.cnt (Cnt.init true c.cap c.tick c.num c.den))
-  | _ => none
+  | .utmap => some (.ut (UtMap.init c.ttl))
+  | .utset => some (.ut (UtMap.init c.ttl))
 
 def L2S.step (m : L2S) (now : Time) (op : Op) : L2S × Out :=
   match m with
@@ -36,6 +39,7 @@ def L2S.step (m : L2S) (now : Time) (op : Op) : L2S × Out :=
   | .utlru s => let r := (Ttl.coreOf .utlru).step s now op; (.utlru r.1, r.2)
   | .fifo s => let r := Fifo.core.step s now op; (.fifo r.1, r.2)
   | .cnt s => let r := Cnt.core.step s now op; (.cnt r.1, r.2)
+  | .ut s => let r := UtMap.core.step s now op; (.ut r.1, r.2)
 
 def L2S.dump : L2S → String
   | .rr s => Rr.dump s
@@ -44,6 +48,7 @@ def L2S.dump : L2S → String
   | .utlru s => Ttl.dump s
   | .fifo s => Fifo.dump s
   | .cnt s => Cnt.dump s
+  | .ut s => UtMap.dump s
 
 def L2S.ub : L2S → Bool
   | .rr s => s.ub
@@ -52,6 +57,7 @@ def L2S.ub : L2S → Bool
   | .utlru s => s.ub
   | .fifo s => s.ub
   | .cnt s => s.ub
+  | .ut s => s.ub
 
 /-- events of instance 0 with the structure dump the harness printed after each (if any) -/
 def loop : L2S → Nat → List (Event × Option String) → Option String
